@@ -22,10 +22,14 @@ class World:
         from optyx.core.parameters import Parameter
         self.pM = Parameter('p', PM)
         self.xM = optyx.Variable('x', lb=0, ub=4)
+        self.yM = optyx.Variable('y', lb=0, ub=4)
         self.nM = self.pM * self.xM + self.xM ** 2
+        self.hM = self.pM * self.xM * self.yM + self.xM ** 2 + self.yM ** 2      # mixed Hessian entry = the parameter leaf
         self.pN = Parameter('p', PN)
         self.xN = optyx.Variable('x', lb=-5, ub=1)
+        self.yN = optyx.Variable('y', lb=-5, ub=1)
         self.nN = self.pN * self.xN - self.xN
+        self.hN = self.pN * self.xN * self.yN - self.yN ** 2
         self.obj = {1: self.pM, 2: self.xM, 3: self.nM, 4: self.pN, 5: self.xN, 6: self.nN}
         self.var = {1: self.xM, 2: self.xM, 3: self.xM, 4: self.xN, 5: self.xN, 6: self.xN}
         self.nfill = 0
@@ -55,6 +59,12 @@ def do(w, op):
             if abs(have - want) > 1e-12:
                 return '%s of %s returns %r, expected %r' % (what, name(arg), have, want)
         return None
+    if kind == 'HessCompile':
+        e, vs, p = (w.hM, [w.xM, w.yM], PM) if arg == 3 else (w.hN, [w.xN, w.yN], PN)
+        H = np.asarray(autodiff.compile_hessian(e, vs)(np.array([X0, 0.25])), dtype=float)
+        if abs(H[0, 1] - p) > 1e-12 or abs(H[1, 0] - p) > 1e-12:
+            return 'compile_hessian of %s returns mixed entry %r, expected %r' % ('M' if arg == 3 else 'N', float(H[0, 1]), p)
+        return None
     # Fill: push more unrelated expressions through the caches than they can hold
     import optyx
     k = w.nfill
@@ -82,11 +92,14 @@ def observe_m(w):
     out['param'] = float(np.asarray(compiler.compile_expression(w.pM, [w.xM])(x)))
     out['grad'] = float(np.asarray(compiler.compile_gradient(w.nM, [w.xM])(x)).reshape(-1)[0])
     out['hess'] = float(np.asarray(autodiff.compile_hessian(w.nM, [w.xM])(x)).reshape(-1)[0])
+    out['hess_mixed'] = [float(v) for v in np.asarray(autodiff.compile_hessian(w.hM, [w.xM, w.yM])(np.array([X0, 0.25]))).reshape(-1)]
     out['degree'] = str(w.nM.degree)
     with warnings.catch_warnings():
         warnings.simplefilter('ignore')
         s = optyx.Problem().minimize((w.xM - w.pM) ** 2 + w.pM).solve()
         out['nlp'] = [s.status.value, round(s.values['x'], 6), round(s.objective_value, 6)]
+        s = optyx.Problem().minimize(w.hM - 3 * w.xM - 3 * w.yM).subject_to(w.xM + w.yM >= 0.1).solve(method='trust-constr')
+        out['nlp_hessian_method'] = [s.status.value, round(s.values['x'], 4), round(s.values['y'], 4)]
         y = optyx.Variable('x', lb=0, ub=4)
         s = optyx.Problem().maximize(2 * y + 1).solve()
         out['lp'] = [s.status.value, round(s.values['x'], 9), round(s.objective_value, 9)]
